@@ -8,7 +8,7 @@
 //! below (a named register, a bit mask, the datasheet/errata-mandated value, a reason); the
 //! allow-listed value is itself checked.
 
-use crate::doubles::{block_on, prior_byte, NullDelay, NullIv};
+use crate::doubles::{block_on, prior_byte, NullDelay, ResetIv};
 use crate::reg127::Reg127;
 use lora_phy::mod_params::{Bandwidth, CodingRate, ModulationParams, PacketParams, RadioError, RadioMode, SpreadingFactor};
 use lora_phy::mod_traits::RadioKind;
@@ -87,6 +87,16 @@ pub enum Sc127 {
     /// symbols = None: continuous
     RxFlow { mp: Mp, pp: Pp, legacy: u8, symbols: Option<u16> },
     CadFlow,
+    // ---- steps that only occur in histories on one driver instance (c13_hist.rs)
+    /// NRESET pulse through `RadioKind::reset`, then LoRa sleep -> standby (what `LoRa::init`
+    /// does before it programs anything); reference: chip reset, fresh driver state, LoRa
+    /// packet type, standby
+    Reset,
+    /// standby -> sleep -> wake -> standby (`warm` is the driver-level hint; the SX127x keeps its
+    /// registers in every sleep)
+    SleepWake { warm: bool },
+    /// `RadioKind::init_lora`: sync word, FIFO bases 0/0, silicon version probe (arms errata 2.1)
+    InitLora { legacy: u8 },
 }
 
 impl Sc127 {
@@ -106,7 +116,53 @@ impl Sc127 {
             Sc127::TxFlow { .. } => "tx-flow",
             Sc127::RxFlow { .. } => "rx-flow",
             Sc127::CadFlow => "cad-flow",
+            Sc127::Reset => "reset",
+            Sc127::SleepWake { .. } => "sleep-wake",
+            Sc127::InitLora { .. } => "init-lora",
         }
+    }
+    pub fn to_json(&self) -> Value {
+        match self {
+            Sc127::Standby => json!({"op":"standby"}),
+            Sc127::Sleep => json!({"op":"sleep"}),
+            Sc127::Freq { hz } => json!({"op":"freq","hz":hz}),
+            Sc127::Mod { mp, armed } => json!({"op":"mod","mod":mp_json(mp),"errata21_armed":armed}),
+            Sc127::Pkt { pp } => json!({"op":"pkt","pkt":pp_json(pp)}),
+            Sc127::Sync { legacy } => json!({"op":"sync","legacy":legacy}),
+            Sc127::SyncRefuse { word } => json!({"op":"sync-refuse","word":word}),
+            Sc127::BufBase { tx, rx } => json!({"op":"bufbase","tx":tx,"rx":rx}),
+            Sc127::Payload { pp } => json!({"op":"payload","pkt":pp_json(pp)}),
+            Sc127::TxPower { dbm, tx_prep } => json!({"op":"txpower","dbm":dbm,"tx_prep":tx_prep}),
+            Sc127::IrqIdle { mode } => json!({"op":"irq-idle","mode":mode}),
+            Sc127::TxFlow { mp, pp, legacy } => json!({"op":"tx-flow","mod":mp_json(mp),"pkt":pp_json(pp),"legacy":legacy}),
+            Sc127::RxFlow { mp, pp, legacy, symbols } => json!({"op":"rx-flow","mod":mp_json(mp),"pkt":pp_json(pp),"legacy":legacy,"symbols":symbols}),
+            Sc127::CadFlow => json!({"op":"cad-flow"}),
+            Sc127::Reset => json!({"op":"reset"}),
+            Sc127::SleepWake { warm } => json!({"op":"sleep-wake","warm":warm}),
+            Sc127::InitLora { legacy } => json!({"op":"init-lora","legacy":legacy}),
+        }
+    }
+    pub fn from_json(o: &Value) -> Option<Sc127> {
+        Some(match o["op"].as_str()? {
+            "standby" => Sc127::Standby,
+            "sleep" => Sc127::Sleep,
+            "freq" => Sc127::Freq { hz: o["hz"].as_u64()? as u32 },
+            "mod" => Sc127::Mod { mp: mp_from(&o["mod"])?, armed: o["errata21_armed"].as_bool()? },
+            "pkt" => Sc127::Pkt { pp: pp_from(&o["pkt"])? },
+            "sync" => Sc127::Sync { legacy: o["legacy"].as_u64()? as u8 },
+            "sync-refuse" => Sc127::SyncRefuse { word: o["word"].as_u64()? as u16 },
+            "bufbase" => Sc127::BufBase { tx: o["tx"].as_u64()? as u8, rx: o["rx"].as_u64()? as u8 },
+            "payload" => Sc127::Payload { pp: pp_from(&o["pkt"])? },
+            "txpower" => Sc127::TxPower { dbm: o["dbm"].as_i64()? as i32, tx_prep: o["tx_prep"].as_bool()? },
+            "irq-idle" => Sc127::IrqIdle { mode: o["mode"].as_str()?.to_string() },
+            "tx-flow" => Sc127::TxFlow { mp: mp_from(&o["mod"])?, pp: pp_from(&o["pkt"])?, legacy: o["legacy"].as_u64()? as u8 },
+            "rx-flow" => Sc127::RxFlow { mp: mp_from(&o["mod"])?, pp: pp_from(&o["pkt"])?, legacy: o["legacy"].as_u64()? as u8, symbols: o["symbols"].as_u64().map(|x| x as u16) },
+            "cad-flow" => Sc127::CadFlow,
+            "reset" => Sc127::Reset,
+            "sleep-wake" => Sc127::SleepWake { warm: o["warm"].as_bool()? },
+            "init-lora" => Sc127::InitLora { legacy: o["legacy"].as_u64()? as u8 },
+            _ => return None,
+        })
     }
 }
 
@@ -134,44 +190,10 @@ pub struct Case127 {
 
 impl Case127 {
     pub fn to_json(&self) -> Value {
-        let sc = match &self.sc {
-            Sc127::Standby => json!({"op":"standby"}),
-            Sc127::Sleep => json!({"op":"sleep"}),
-            Sc127::Freq { hz } => json!({"op":"freq","hz":hz}),
-            Sc127::Mod { mp, armed } => json!({"op":"mod","mod":mp_json(mp),"errata21_armed":armed}),
-            Sc127::Pkt { pp } => json!({"op":"pkt","pkt":pp_json(pp)}),
-            Sc127::Sync { legacy } => json!({"op":"sync","legacy":legacy}),
-            Sc127::SyncRefuse { word } => json!({"op":"sync-refuse","word":word}),
-            Sc127::BufBase { tx, rx } => json!({"op":"bufbase","tx":tx,"rx":rx}),
-            Sc127::Payload { pp } => json!({"op":"payload","pkt":pp_json(pp)}),
-            Sc127::TxPower { dbm, tx_prep } => json!({"op":"txpower","dbm":dbm,"tx_prep":tx_prep}),
-            Sc127::IrqIdle { mode } => json!({"op":"irq-idle","mode":mode}),
-            Sc127::TxFlow { mp, pp, legacy } => json!({"op":"tx-flow","mod":mp_json(mp),"pkt":pp_json(pp),"legacy":legacy}),
-            Sc127::RxFlow { mp, pp, legacy, symbols } => json!({"op":"rx-flow","mod":mp_json(mp),"pkt":pp_json(pp),"legacy":legacy,"symbols":symbols}),
-            Sc127::CadFlow => json!({"op":"cad-flow"}),
-        };
-        json!({"family":"sx127x","chip":self.chip.name(),"tx_boost":self.tx_boost,"rx_boost":self.rx_boost,"prior_seed":self.seed,"op":sc})
+        json!({"family":"sx127x","chip":self.chip.name(),"tx_boost":self.tx_boost,"rx_boost":self.rx_boost,"prior_seed":self.seed,"op":self.sc.to_json()})
     }
     pub fn from_json(v: &Value) -> Option<Case127> {
-        let o = &v["op"];
-        let sc = match o["op"].as_str()? {
-            "standby" => Sc127::Standby,
-            "sleep" => Sc127::Sleep,
-            "freq" => Sc127::Freq { hz: o["hz"].as_u64()? as u32 },
-            "mod" => Sc127::Mod { mp: mp_from(&o["mod"])?, armed: o["errata21_armed"].as_bool()? },
-            "pkt" => Sc127::Pkt { pp: pp_from(&o["pkt"])? },
-            "sync" => Sc127::Sync { legacy: o["legacy"].as_u64()? as u8 },
-            "sync-refuse" => Sc127::SyncRefuse { word: o["word"].as_u64()? as u16 },
-            "bufbase" => Sc127::BufBase { tx: o["tx"].as_u64()? as u8, rx: o["rx"].as_u64()? as u8 },
-            "payload" => Sc127::Payload { pp: pp_from(&o["pkt"])? },
-            "txpower" => Sc127::TxPower { dbm: o["dbm"].as_i64()? as i32, tx_prep: o["tx_prep"].as_bool()? },
-            "irq-idle" => Sc127::IrqIdle { mode: o["mode"].as_str()?.to_string() },
-            "tx-flow" => Sc127::TxFlow { mp: mp_from(&o["mod"])?, pp: pp_from(&o["pkt"])?, legacy: o["legacy"].as_u64()? as u8 },
-            "rx-flow" => Sc127::RxFlow { mp: mp_from(&o["mod"])?, pp: pp_from(&o["pkt"])?, legacy: o["legacy"].as_u64()? as u8, symbols: o["symbols"].as_u64().map(|x| x as u16) },
-            "cad-flow" => Sc127::CadFlow,
-            _ => return None,
-        };
-        Some(Case127 { chip: Chip127::from_name(v["chip"].as_str()?)?, tx_boost: v["tx_boost"].as_bool()?, rx_boost: v["rx_boost"].as_bool()?, seed: v["prior_seed"].as_u64()?, sc })
+        Some(Case127 { chip: Chip127::from_name(v["chip"].as_str()?)?, tx_boost: v["tx_boost"].as_bool()?, rx_boost: v["rx_boost"].as_bool()?, seed: v["prior_seed"].as_u64()?, sc: Sc127::from_json(&v["op"])? })
     }
 }
 
@@ -296,6 +318,18 @@ fn lp_exec<RK: RadioKind>(r: &mut RK, case: &Case127) -> Result<(), RadioError> 
             let mp = Mp { sf: 7, bw_hz: 125_000, cr: 5, ldro: 0, hz: 868_100_000 };
             block_on(r.do_cad(&lp_mp(&mp)))
         }
+        Sc127::Reset => {
+            block_on(r.reset(&mut NullDelay))?;
+            block_on(r.ensure_ready(RadioMode::Sleep))?;
+            block_on(r.set_standby())
+        }
+        Sc127::SleepWake { warm } => {
+            block_on(r.set_standby())?;
+            block_on(r.set_sleep(*warm, &mut NullDelay))?;
+            block_on(r.ensure_ready(RadioMode::Sleep))?;
+            block_on(r.set_standby())
+        }
+        Sc127::InitLora { legacy } => block_on(r.init_lora(legacy_to_word(*legacy))),
     }
 }
 
@@ -310,7 +344,7 @@ pub struct Allow {
 }
 
 /// The reviewed allow-list for one case.
-pub fn allow_list(case: &Case127) -> Vec<Allow> {
+pub fn allow_list(case: &Case127, h: &Hctx) -> Vec<Allow> {
     let mut v: Vec<Allow> = vec![];
     let c76 = case.chip == Chip127::Sx1276;
     // errata registers that only influence the receiver and that the reference programs at SetRx
@@ -355,7 +389,7 @@ pub fn allow_list(case: &Case127) -> Vec<Allow> {
         v.push(Allow { addr: 0x3B, mask: 0xFF, expect: Some(if pp.iq { 0x19 } else { 0x1D }), why: "RegInvertIQ2 = 0x19 inverted / 0x1D normal" });
     };
     match &case.sc {
-        Sc127::Mod { mp, armed } => errata_rx_only(&mut v, mp, *armed),
+        Sc127::Mod { mp, armed } => errata_rx_only(&mut v, mp, *armed || h.armed),
         Sc127::Pkt { pp } | Sc127::Payload { pp } => {
             iq_deferred(&mut v, pp);
             v.push(Allow { addr: 0x23, mask: 0xFF, expect: None, why: "RegMaxPayloadLength: the reference pins it to the packet length, lora-phy keeps the reset value; judged in the RX flow" });
@@ -396,6 +430,9 @@ pub fn allow_list(case: &Case127) -> Vec<Allow> {
         }
         Sc127::CadFlow => lna(&mut v),
         _ => {}
+    }
+    if h.dio3_vh && matches!(case.sc, Sc127::TxFlow { .. } | Sc127::CadFlow) {
+        v.push(Allow { addr: 0x40, mask: 0x03, expect: Some(0x01), why: "RegDioMapping1 DIO3 = 01 (ValidHeader) kept from an earlier reception set-up (lora-phy read-modify-writes the register, the reference rewrites it from its shadow with DIO3 = 00); no header is detected while transmitting or in CAD" });
     }
     v
 }
@@ -441,238 +478,362 @@ fn dedup(v: &[u8]) -> Vec<u8> {
     o
 }
 
-pub fn check127(case: &Case127) -> Result<Verdict, Failure> {
-    let cj = case.to_json();
-    let kind = case.sc.kind();
-    let chipn = case.chip.name();
-    let fail = |rule: &str, fp: String, detail: String| Failure::new(rule, cj.clone(), detail).with_fp(fp);
+/// lora-phy driver instance of either chip variant (the RadioKind trait is not object safe)
+pub enum Lp127 {
+    A(Sx127x<Reg127, ResetIv, Sx1276>),
+    B(Sx127x<Reg127, ResetIv, Sx1272>),
+}
 
-    let ra = Reg127::new();
-    let rb = Reg127::new();
-    prime(&ra, case);
-    prime(&rb, case);
+/// History-dependent context of one step (all false for a fresh driver on a primed chip).
+#[derive(Clone, Copy, Default, Debug)]
+pub struct Hctx {
+    /// lora-phy's errata-2.1 flag is set: `init_lora` saw silicon version 0x12 on this driver
+    /// instance at some earlier point (the flag is driver-side state and survives a chip reset)
+    pub armed: bool,
+    /// RegDioMapping1 DIO3 = 01 (ValidHeader) is left in the chip by an earlier reception set-up:
+    /// lora-phy read-modify-writes the register and keeps it, the reference rewrites the whole
+    /// register from its shadow copy (DIO3 = 00); outside reception no header can be detected, so
+    /// the mapping of DIO3 is without effect
+    pub dio3_vh: bool,
+    /// the driver instances have executed at least one step: they may know the chip's operating
+    /// mode, so a RegOpMode write that does not change the mode is not a chip-visible difference
+    /// (the operating-mode sequences are compared as sequences of mode *changes* from the mode the
+    /// step starts in; on fresh instances the written sequences themselves are compared)
+    pub used: bool,
+}
 
-    // ---- lora-phy
-    let lp = catch(|| match case.chip {
-        Chip127::Sx1276 => lp_exec(&mut Sx127x::new(ra.clone(), NullIv, Config { chip: Sx1276, tcxo_used: false, tx_boost: case.tx_boost, rx_boost: case.rx_boost }), case),
-        Chip127::Sx1272 => lp_exec(&mut Sx127x::new(ra.clone(), NullIv, Config { chip: Sx1272, tcxo_used: false, tx_boost: case.tx_boost, rx_boost: case.rx_boost }), case),
-    });
-    let lp = match lp {
-        Ok(r) => r,
-        Err(p) => return Err(Failure::panic(cj.clone(), &p)),
-    };
-    if let Err(e) = &lp {
-        let documented = match &case.sc {
-            Sc127::SyncRefuse { .. } => *e == RadioError::InvalidSyncWord,
-            _ => false,
-        };
-        let traffic = ra.0.borrow().transactions;
-        if !documented {
-            return Err(fail("unexpected-refusal", format!("{chipn}/{kind}/refused"), format!("lora-phy returned {e:?} for a legal parameter value after {traffic} transactions")));
-        }
-        if traffic != 0 {
-            return Err(fail("refusal-with-traffic", format!("{chipn}/{kind}/refused-with-traffic"), format!("refused with {e:?} after {traffic} transactions")));
-        }
-        return Ok(Verdict::Refused);
-    }
-    if let Sc127::SyncRefuse { word } = &case.sc {
-        return Err(fail("sync-word-domain", format!("{chipn}/{kind}/accepted"), format!("sync word {word:#06x} has no single-byte form but was accepted")));
-    }
+/// One lora-phy driver instance and one reference-driver context, each on its own register-file
+/// double. `check127` uses it for exactly one step on a freshly primed chip; the history stage
+/// (c13_hist.rs) runs several steps on the same instances.
+pub struct Sess127 {
+    pub chip: Chip127,
+    pub tx_boost: bool,
+    pub rx_boost: bool,
+    pub ra: Reg127,
+    pub rb: Reg127,
+    lp: Lp127,
+    c: smtc::Context<Reg127>,
+    pub hctx: Hctx,
+    /// NRESET pulses lora-phy's control-line double has seen
+    pub resets: std::rc::Rc<core::cell::Cell<u32>>,
+}
 
-    // ---- reference
-    let id = match case.chip {
+fn radio_id(chip: Chip127) -> smtc::sx127x_radio_id_e {
+    match chip {
         Chip127::Sx1276 => smtc::sx127x_radio_id_e::SX127X_RADIO_ID_SX1276,
         Chip127::Sx1272 => smtc::sx127x_radio_id_e::SX127X_RADIO_ID_SX1272,
-    };
-    let mut c = smtc::Context::new(rb.clone(), id);
-    c.set_pkt_type(sys::sx127x_pkt_types_e_SX127X_PKT_TYPE_LORA); // reads RegOpMode: already LoRa
-    match &case.sc {
-        Sc127::Standby => {
-            c.set_standby();
-        }
-        Sc127::Sleep => {
-            c.set_standby();
-            c.set_sleep();
-        }
-        Sc127::Freq { hz } => {
-            c.set_rf_freq(*hz);
-        }
-        Sc127::Mod { mp, armed } => {
-            if *armed {
-                c.set_lora_sync_word(0x34);
-                c.write_register(0x0E, &[0, 0]);
-            }
-            c.set_lora_mod_params(&ref_mp(mp));
-        }
-        Sc127::Pkt { pp } => {
-            c.set_lora_pkt_params(&ref_pp(pp, pp.len));
-        }
-        Sc127::Sync { legacy } => {
-            c.set_lora_sync_word(*legacy);
-        }
-        Sc127::SyncRefuse { .. } => unreachable!(),
-        Sc127::BufBase { tx, rx } => {
-            // the reference has no API for non-zero FIFO bases: datasheet registers 0x0E / 0x0F
-            c.write_register(0x0E, &[*tx, *rx]);
-        }
-        Sc127::Payload { pp } => {
-            c.set_lora_pkt_params(&ref_pp(pp, pp.len));
-            c.write_buffer(0, &payload(case.seed, pp.len as usize));
-        }
-        Sc127::TxPower { dbm, tx_prep } => {
-            // legal range of the selected output (datasheet 5.4.2/5.4.3); requests outside are clamped
-            let (p, hi) = match (case.chip, case.tx_boost) {
-                (_, true) => ((*dbm).clamp(2, 20), (*dbm).clamp(2, 20) > 17),
-                (Chip127::Sx1276, false) => ((*dbm).clamp(-4, 14), false),
-                (Chip127::Sx1272, false) => ((*dbm).clamp(-1, 14), false),
-            };
-            c.set_pa_cfg(&sys::sx127x_pa_cfg_params_t {
-                pa_select: if case.tx_boost { sys::sx127x_pa_select_e_SX127X_PA_SELECT_BOOST } else { sys::sx127x_pa_select_e_SX127X_PA_SELECT_RFO },
-                is_20_dbm_output_on: hi,
-            });
-            c.set_tx_params(p as i8, if *tx_prep { sys::sx127x_ramp_time_e_SX127X_RAMP_40_US } else { sys::sx127x_ramp_time_e_SX127X_RAMP_250_US });
-        }
-        Sc127::IrqIdle { .. } => {
-            c.set_irq_mask(sys::sx127x_irq_masks_e_SX127X_IRQ_NONE as u16);
-        }
-        Sc127::TxFlow { mp, pp, legacy } => {
-            c.set_lora_sync_word(*legacy);
-            c.set_rf_freq(mp.hz);
-            c.set_lora_mod_params(&ref_mp(mp));
-            c.set_lora_pkt_params(&ref_pp(pp, pp.len));
-            c.write_buffer(0, &payload(case.seed, pp.len as usize));
-            c.set_irq_mask(sys::sx127x_irq_masks_e_SX127X_IRQ_TX_DONE as u16);
-            c.set_tx();
-        }
-        Sc127::RxFlow { mp, pp, legacy, symbols } => {
-            c.set_lora_sync_word(*legacy);
-            c.set_rf_freq(mp.hz);
-            c.set_lora_mod_params(&ref_mp(mp));
-            // explicit header: maximum length 255 (reset value of RegMaxPayloadLength)
-            c.set_lora_pkt_params(&ref_pp(pp, if pp.implicit { pp.len } else { 255 }));
-            c.set_irq_mask((sys::sx127x_irq_masks_e_SX127X_IRQ_RX_DONE | sys::sx127x_irq_masks_e_SX127X_IRQ_TIMEOUT | sys::sx127x_irq_masks_e_SX127X_IRQ_CRC_ERROR | sys::sx127x_irq_masks_e_SX127X_IRQ_HEADER_VALID) as u16);
-            match symbols {
-                // SymbTimeout is a 10-bit field with a minimum of 4 symbols (datasheet RegSymbTimeout)
-                Some(n) => {
-                    c.set_lora_sync_timeout((*n).clamp(4, 1023));
-                    c.set_rx(0);
-                }
-                None => {
-                    c.set_lora_sync_timeout(0);
-                    c.set_rx(0x00FF_FFFF);
-                }
-            }
-        }
-        Sc127::CadFlow => {
-            c.set_irq_mask((sys::sx127x_irq_masks_e_SX127X_IRQ_CAD_DONE | sys::sx127x_irq_masks_e_SX127X_IRQ_CAD_DETECTED) as u16);
-            c.set_cad();
-        }
+    }
+}
+
+impl Sess127 {
+    pub fn new(chip: Chip127, tx_boost: bool, rx_boost: bool) -> Self {
+        let ra = Reg127::new();
+        let rb = Reg127::new();
+        let c76 = chip == Chip127::Sx1276;
+        let target = ra.clone();
+        let iv = ResetIv::new(move || target.chip_reset(c76));
+        let resets = iv.resets.clone();
+        let lp = match chip {
+            Chip127::Sx1276 => Lp127::A(Sx127x::new(ra.clone(), iv, Config { chip: Sx1276, tcxo_used: false, tx_boost, rx_boost })),
+            Chip127::Sx1272 => Lp127::B(Sx127x::new(ra.clone(), iv, Config { chip: Sx1272, tcxo_used: false, tx_boost, rx_boost })),
+        };
+        let c = smtc::Context::new(rb.clone(), radio_id(chip));
+        Sess127 { chip, tx_boost, rx_boost, ra, rb, lp, c, hctx: Hctx::default(), resets }
     }
 
-    // ---- compare chip-visible outcomes
-    let a = ra.0.borrow();
-    let b = rb.0.borrow();
-    if let Some(e) = a.protocol_errors.first() {
-        return Err(fail("spi-framing", format!("{chipn}/{kind}/framing"), format!("lora-phy: {e}")));
+    /// Same prior contents on both chips (see `prime`).
+    pub fn prime(&self, case: &Case127) {
+        prime(&self.ra, case);
+        prime(&self.rb, case);
     }
-    if let Some(e) = b.protocol_errors.first() {
-        return Err(fail("harness", format!("harness/{chipn}/{kind}/reference-framing"), format!("reference: {e}")));
+
+    /// Make the reference's chip hold exactly what lora-phy's chip holds ("given the same
+    /// register state"): called after a step whose outcome was judged, so that what remains
+    /// different are allow-listed cells only.
+    pub fn reconcile(&self) {
+        let a = self.ra.0.borrow();
+        let mut b = self.rb.0.borrow_mut();
+        b.regs = a.regs;
+        b.fifo = a.fifo;
     }
-    let allow = allow_list(case);
-    // RegFrf (0x06..0x08) is judged as one 24-bit word so that a carry does not change the fingerprint
-    let frf = |r: &crate::reg127::RegState| ((r.regs[6] as u32) << 16) | ((r.regs[7] as u32) << 8) | r.regs[8] as u32;
-    let (fa, fb) = (frf(&a), frf(&b));
-    let narrow_rx = matches!((&case.chip, &case.sc), (Chip127::Sx1276, Sc127::RxFlow { mp, .. }) if mp.bw_hz < 62_500);
-    // a difference of a class that has its own fingerprint is reported only if nothing else
-    // differs, so that the rest of the outcome is still judged for such a case
-    let mut deferred: Option<Failure> = None;
-    if narrow_rx {
-        // SX1276 errata 2.3 for bandwidths below 62.5 kHz: AutomaticIFOn = 0, RegIfFreq2 = 0x48
-        // (7.8 kHz) / 0x44, RegIfFreq1 = 0, and the RF frequency offset by one bandwidth.
-        let d: Vec<String> = [0x06u8, 0x07, 0x08, 0x2F, 0x30, 0x31]
-            .iter()
-            .filter(|r| {
-                let m = if **r == 0x31 { 0x80 } else { 0xFF };
-                (a.regs[**r as usize] ^ b.regs[**r as usize]) & m != 0
-            })
-            .map(|r| format!("{r:#04x}: {:#04x} vs {:#04x}", a.regs[*r as usize], b.regs[*r as usize]))
-            .collect();
-        if !d.is_empty() {
-            deferred = Some(fail("outcome-equal", format!("{chipn}/{kind}/errata-2.3-narrow-bw"), format!("errata 2.3 registers at RX start (lora-phy vs reference): {}", d.join(", "))));
-        }
-    } else if fa != fb {
-        let fp = if fb == fa + 1 { "sx127x/frf-one-below-reference".to_string() } else { format!("{chipn}/{kind}/frf") };
-        deferred = Some(fail("outcome-equal", fp, format!("RegFrf: lora-phy {fa:#08x}, reference {fb:#08x}")));
-    }
-    for addr in 1u8..0x80 {
-        if addr == 0x12 || (0x06..=0x08).contains(&addr) {
-            continue; // RegIrqFlags: status, see irq_clears; RegFrf: above
-        }
-        if narrow_rx && (addr == 0x2F || addr == 0x30) {
-            continue;
-        }
-        let narrow31 = narrow_rx && addr == 0x31;
-        let (mut x, mut y) = (a.regs[addr as usize], b.regs[addr as usize]);
-        if addr == 0x01 {
-            // RegOpMode[6:3] (AccessSharedReg, LowFrequencyModeOn register-page selectors):
-            // lora-phy writes 0, the reference preserves; neither driver touches paged registers
-            x &= 0x87;
-            y &= 0x87;
-        }
-        let mut diff = x ^ y;
-        if narrow31 {
-            diff &= 0x7F;
-        }
-        if diff == 0 {
-            continue;
-        }
-        for al in allow.iter().filter(|al| al.addr == addr) {
-            if diff & al.mask == 0 {
-                continue;
+
+    /// Runs one scenario on both drivers and compares the chip-visible outcomes.
+    /// `case.chip / tx_boost / rx_boost` must be the session's.
+    pub fn step(&mut self, case: &Case127, cj: &Value) -> Result<Verdict, Failure> {
+        assert!(case.chip == self.chip && case.tx_boost == self.tx_boost && case.rx_boost == self.rx_boost, "harness: step for another board configuration");
+        let kind = case.sc.kind();
+        let chipn = case.chip.name();
+        let fail = |rule: &str, fp: String, detail: String| Failure::new(rule, cj.clone(), detail).with_fp(fp);
+        let (ra, rb) = (self.ra.clone(), self.rb.clone());
+        ra.clear_logs();
+        rb.clear_logs();
+        let before: [u8; 128] = ra.0.borrow().regs;
+        let hctx = self.hctx;
+        let resets_before = self.resets.get();
+
+        // ---- lora-phy
+        let lpm = &mut self.lp;
+        let lp = catch(move || match lpm {
+            Lp127::A(r) => lp_exec(r, case),
+            Lp127::B(r) => lp_exec(r, case),
+        });
+        let lp = match lp {
+            Ok(r) => r,
+            Err(p) => return Err(Failure::panic(cj.clone(), &p)),
+        };
+        if let Err(e) = &lp {
+            let documented = match &case.sc {
+                Sc127::SyncRefuse { .. } => *e == RadioError::InvalidSyncWord,
+                _ => false,
+            };
+            let traffic = ra.0.borrow().transactions;
+            if !documented {
+                return Err(fail("unexpected-refusal", format!("{chipn}/{kind}/refused"), format!("lora-phy returned {e:?} for a legal parameter value after {traffic} transactions")));
             }
-            match al.expect {
-                None => diff &= !al.mask,
-                Some(v) => {
-                    if x & al.mask == v {
-                        diff &= !al.mask;
-                    } else {
-                        return Err(fail(
-                            "allow-listed-value",
-                            format!("{chipn}/{kind}/reg{addr:02x}/allow-listed-value"),
-                            format!("register {addr:#04x}: lora-phy {x:#04x}, reference {y:#04x}; allow-list ({}) requires bits {:#04x} = {v:#04x}", al.why, al.mask),
-                        ));
+            if traffic != 0 {
+                return Err(fail("refusal-with-traffic", format!("{chipn}/{kind}/refused-with-traffic"), format!("refused with {e:?} after {traffic} transactions")));
+            }
+            return Ok(Verdict::Refused);
+        }
+        if let Sc127::SyncRefuse { word } = &case.sc {
+            return Err(fail("sync-word-domain", format!("{chipn}/{kind}/accepted"), format!("sync word {word:#06x} has no single-byte form but was accepted")));
+        }
+        // driver-side state the later steps of a history depend on
+        match &case.sc {
+            Sc127::InitLora { .. } | Sc127::TxFlow { .. } | Sc127::RxFlow { .. } | Sc127::Mod { armed: true, .. } => self.hctx.armed = case.chip == Chip127::Sx1276,
+            _ => {}
+        }
+        self.hctx.used = true;
+        match &case.sc {
+            Sc127::RxFlow { .. } => self.hctx.dio3_vh = true,
+            Sc127::Reset => self.hctx.dio3_vh = false,
+            _ => {}
+        }
+
+        // ---- reference
+        if let Sc127::Reset = &case.sc {
+            if self.resets.get() == resets_before {
+                return Err(fail("reset-line", format!("{chipn}/{kind}/no-nreset-pulse"), "RadioKind::reset did not pulse NRESET through InterfaceVariant::reset".into()));
+            }
+            // NRESET on the reference's chip (the binding's hal reset is a no-op) and the driver
+            // state a re-initialisation starts from: a fresh sx127x_t
+            rb.chip_reset(case.chip == Chip127::Sx1276);
+            self.c = smtc::Context::new(rb.clone(), radio_id(case.chip));
+        }
+        let c = &mut self.c;
+        c.set_pkt_type(sys::sx127x_pkt_types_e_SX127X_PKT_TYPE_LORA); // reads RegOpMode: already LoRa (except after a reset)
+        match &case.sc {
+            Sc127::Standby => {
+                c.set_standby();
+            }
+            Sc127::Sleep => {
+                c.set_standby();
+                c.set_sleep();
+            }
+            Sc127::Freq { hz } => {
+                c.set_rf_freq(*hz);
+            }
+            Sc127::Mod { mp, armed } => {
+                if *armed {
+                    c.set_lora_sync_word(0x34);
+                    c.write_register(0x0E, &[0, 0]);
+                }
+                c.set_lora_mod_params(&ref_mp(mp));
+            }
+            Sc127::Pkt { pp } => {
+                c.set_lora_pkt_params(&ref_pp(pp, pp.len));
+            }
+            Sc127::Sync { legacy } => {
+                c.set_lora_sync_word(*legacy);
+            }
+            Sc127::SyncRefuse { .. } => unreachable!(),
+            Sc127::BufBase { tx, rx } => {
+                // the reference has no API for non-zero FIFO bases: datasheet registers 0x0E / 0x0F
+                c.write_register(0x0E, &[*tx, *rx]);
+            }
+            Sc127::Payload { pp } => {
+                c.set_lora_pkt_params(&ref_pp(pp, pp.len));
+                c.write_buffer(0, &payload(case.seed, pp.len as usize));
+            }
+            Sc127::TxPower { dbm, tx_prep } => {
+                // legal range of the selected output (datasheet 5.4.2/5.4.3); requests outside are clamped
+                let (p, hi) = match (case.chip, case.tx_boost) {
+                    (_, true) => ((*dbm).clamp(2, 20), (*dbm).clamp(2, 20) > 17),
+                    (Chip127::Sx1276, false) => ((*dbm).clamp(-4, 14), false),
+                    (Chip127::Sx1272, false) => ((*dbm).clamp(-1, 14), false),
+                };
+                c.set_pa_cfg(&sys::sx127x_pa_cfg_params_t {
+                    pa_select: if case.tx_boost { sys::sx127x_pa_select_e_SX127X_PA_SELECT_BOOST } else { sys::sx127x_pa_select_e_SX127X_PA_SELECT_RFO },
+                    is_20_dbm_output_on: hi,
+                });
+                c.set_tx_params(p as i8, if *tx_prep { sys::sx127x_ramp_time_e_SX127X_RAMP_40_US } else { sys::sx127x_ramp_time_e_SX127X_RAMP_250_US });
+            }
+            Sc127::IrqIdle { .. } => {
+                c.set_irq_mask(sys::sx127x_irq_masks_e_SX127X_IRQ_NONE as u16);
+            }
+            Sc127::TxFlow { mp, pp, legacy } => {
+                c.set_lora_sync_word(*legacy);
+                c.set_rf_freq(mp.hz);
+                c.set_lora_mod_params(&ref_mp(mp));
+                c.set_lora_pkt_params(&ref_pp(pp, pp.len));
+                c.write_buffer(0, &payload(case.seed, pp.len as usize));
+                c.set_irq_mask(sys::sx127x_irq_masks_e_SX127X_IRQ_TX_DONE as u16);
+                c.set_tx();
+            }
+            Sc127::RxFlow { mp, pp, legacy, symbols } => {
+                c.set_lora_sync_word(*legacy);
+                c.set_rf_freq(mp.hz);
+                c.set_lora_mod_params(&ref_mp(mp));
+                // explicit header: maximum length 255 (reset value of RegMaxPayloadLength)
+                c.set_lora_pkt_params(&ref_pp(pp, if pp.implicit { pp.len } else { 255 }));
+                c.set_irq_mask((sys::sx127x_irq_masks_e_SX127X_IRQ_RX_DONE | sys::sx127x_irq_masks_e_SX127X_IRQ_TIMEOUT | sys::sx127x_irq_masks_e_SX127X_IRQ_CRC_ERROR | sys::sx127x_irq_masks_e_SX127X_IRQ_HEADER_VALID) as u16);
+                match symbols {
+                    // SymbTimeout is a 10-bit field with a minimum of 4 symbols (datasheet RegSymbTimeout)
+                    Some(n) => {
+                        c.set_lora_sync_timeout((*n).clamp(4, 1023));
+                        c.set_rx(0);
+                    }
+                    None => {
+                        c.set_lora_sync_timeout(0);
+                        c.set_rx(0x00FF_FFFF);
                     }
                 }
             }
+            Sc127::CadFlow => {
+                c.set_irq_mask((sys::sx127x_irq_masks_e_SX127X_IRQ_CAD_DONE | sys::sx127x_irq_masks_e_SX127X_IRQ_CAD_DETECTED) as u16);
+                c.set_cad();
+            }
+            Sc127::Reset => {
+                // set_pkt_type above selected LoRa through sleep; what is left is the wake-up
+                c.set_standby();
+            }
+            Sc127::SleepWake { .. } => {
+                c.set_standby();
+                c.set_sleep();
+                c.set_standby();
+            }
+            Sc127::InitLora { legacy } => {
+                c.set_lora_sync_word(*legacy);
+                c.write_register(0x0E, &[0, 0]);
+            }
         }
-        if diff != 0 {
-            return Err(fail(
-                "outcome-equal",
-                format!("{chipn}/{kind}/reg{addr:02x}"),
-                format!("register {addr:#04x}: lora-phy leaves {x:#04x}, reference {y:#04x} (differing bits {diff:#04x}); prior {:#04x}", prior_of(case, addr)),
-            ));
+
+        // ---- compare chip-visible outcomes
+        let a = ra.0.borrow();
+        let b = rb.0.borrow();
+        if let Some(e) = a.protocol_errors.first() {
+            return Err(fail("spi-framing", format!("{chipn}/{kind}/framing"), format!("lora-phy: {e}")));
         }
+        if let Some(e) = b.protocol_errors.first() {
+            return Err(fail("harness", format!("harness/{chipn}/{kind}/reference-framing"), format!("reference: {e}")));
+        }
+        let allow = allow_list(case, &hctx);
+        // RegFrf (0x06..0x08) is judged as one 24-bit word so that a carry does not change the fingerprint
+        let frf = |r: &crate::reg127::RegState| ((r.regs[6] as u32) << 16) | ((r.regs[7] as u32) << 8) | r.regs[8] as u32;
+        let (fa, fb) = (frf(&a), frf(&b));
+        let narrow_rx = matches!((&case.chip, &case.sc), (Chip127::Sx1276, Sc127::RxFlow { mp, .. }) if mp.bw_hz < 62_500);
+        // a difference of a class that has its own fingerprint is reported only if nothing else
+        // differs, so that the rest of the outcome is still judged for such a case
+        let mut deferred: Option<Failure> = None;
+        if narrow_rx {
+            // SX1276 errata 2.3 for bandwidths below 62.5 kHz: AutomaticIFOn = 0, RegIfFreq2 = 0x48
+            // (7.8 kHz) / 0x44, RegIfFreq1 = 0, and the RF frequency offset by one bandwidth.
+            let d: Vec<String> = [0x06u8, 0x07, 0x08, 0x2F, 0x30, 0x31]
+                .iter()
+                .filter(|r| {
+                    let m = if **r == 0x31 { 0x80 } else { 0xFF };
+                    (a.regs[**r as usize] ^ b.regs[**r as usize]) & m != 0
+                })
+                .map(|r| format!("{r:#04x}: {:#04x} vs {:#04x}", a.regs[*r as usize], b.regs[*r as usize]))
+                .collect();
+            if !d.is_empty() {
+                deferred = Some(fail("outcome-equal", format!("{chipn}/{kind}/errata-2.3-narrow-bw"), format!("errata 2.3 registers at RX start (lora-phy vs reference): {}", d.join(", "))));
+            }
+        } else if fa != fb {
+            let fp = if fb == fa + 1 { "sx127x/frf-one-below-reference".to_string() } else { format!("{chipn}/{kind}/frf") };
+            deferred = Some(fail("outcome-equal", fp, format!("RegFrf: lora-phy {fa:#08x}, reference {fb:#08x} (before the operation: {:#08x})", ((before[6] as u32) << 16) | ((before[7] as u32) << 8) | before[8] as u32)));
+        }
+        for addr in 1u8..0x80 {
+            if addr == 0x12 || (0x06..=0x08).contains(&addr) {
+                continue; // RegIrqFlags: status, see irq_clears; RegFrf: above
+            }
+            if narrow_rx && (addr == 0x2F || addr == 0x30) {
+                continue;
+            }
+            let narrow31 = narrow_rx && addr == 0x31;
+            let (mut x, mut y) = (a.regs[addr as usize], b.regs[addr as usize]);
+            if addr == 0x01 {
+                // RegOpMode[6:3] (AccessSharedReg, LowFrequencyModeOn register-page selectors):
+                // lora-phy writes 0, the reference preserves; neither driver touches paged registers
+                x &= 0x87;
+                y &= 0x87;
+            }
+            let mut diff = x ^ y;
+            if narrow31 {
+                diff &= 0x7F;
+            }
+            if diff == 0 {
+                continue;
+            }
+            for al in allow.iter().filter(|al| al.addr == addr) {
+                if diff & al.mask == 0 {
+                    continue;
+                }
+                match al.expect {
+                    None => diff &= !al.mask,
+                    Some(v) => {
+                        if x & al.mask == v {
+                            diff &= !al.mask;
+                        } else {
+                            return Err(fail(
+                                "allow-listed-value",
+                                format!("{chipn}/{kind}/reg{addr:02x}/allow-listed-value"),
+                                format!("register {addr:#04x}: lora-phy {x:#04x}, reference {y:#04x}; allow-list ({}) requires bits {:#04x} = {v:#04x}", al.why, al.mask),
+                            ));
+                        }
+                    }
+                }
+            }
+            if diff != 0 {
+                return Err(fail(
+                    "outcome-equal",
+                    format!("{chipn}/{kind}/reg{addr:02x}"),
+                    format!("register {addr:#04x}: lora-phy leaves {x:#04x}, reference {y:#04x} (differing bits {diff:#04x}); prior {:#04x}", before[addr as usize]),
+                ));
+            }
+        }
+        if a.fifo_writes != b.fifo_writes {
+            return Err(fail("outcome-equal", format!("{chipn}/{kind}/fifo"), format!("FIFO writes differ: lora-phy {} bytes from {:?}, reference {} bytes from {:?}", a.fifo_writes.len(), a.fifo_writes.first(), b.fifo_writes.len(), b.fifo_writes.first())));
+        }
+        let (ma, mb) = if hctx.used {
+            let from = |v: &Vec<u8>| {
+                let mut w = vec![before[1]];
+                w.extend_from_slice(v);
+                dedup(&w)[1..].to_vec()
+            };
+            (from(&a.opmodes), from(&b.opmodes))
+        } else {
+            (dedup(&a.opmodes), dedup(&b.opmodes))
+        };
+        if ma != mb {
+            return Err(fail("outcome-equal", format!("{chipn}/{kind}/opmode-sequence"), format!("operating mode sequence: lora-phy {ma:02x?}, reference {mb:02x?}")));
+        }
+        // IRQ flag clears: the reference clears flags only inside its DIO interrupt handlers.
+        // Allow-listed: lora-phy may clear, and then must clear all flags (write 0xFF).
+        if let Some(v) = a.irq_clears.iter().find(|v| **v != 0xFF) {
+            return Err(fail("allow-listed-value", format!("{chipn}/{kind}/irq-clear"), format!("RegIrqFlags written with {v:#04x}, expected 0xFF (clear all)")));
+        }
+        if let Some(f) = deferred {
+            return Err(f);
+        }
+        Ok(Verdict::Compared)
     }
-    if a.fifo_writes != b.fifo_writes {
-        return Err(fail("outcome-equal", format!("{chipn}/{kind}/fifo"), format!("FIFO writes differ: lora-phy {} bytes from {:?}, reference {} bytes from {:?}", a.fifo_writes.len(), a.fifo_writes.first(), b.fifo_writes.len(), b.fifo_writes.first())));
-    }
-    let (ma, mb) = (dedup(&a.opmodes), dedup(&b.opmodes));
-    if ma != mb {
-        return Err(fail("outcome-equal", format!("{chipn}/{kind}/opmode-sequence"), format!("operating mode sequence: lora-phy {ma:02x?}, reference {mb:02x?}")));
-    }
-    // IRQ flag clears: the reference clears flags only inside its DIO interrupt handlers.
-    // Allow-listed: lora-phy may clear, and then must clear all flags (write 0xFF).
-    if let Some(v) = a.irq_clears.iter().find(|v| **v != 0xFF) {
-        return Err(fail("allow-listed-value", format!("{chipn}/{kind}/irq-clear"), format!("RegIrqFlags written with {v:#04x}, expected 0xFF (clear all)")));
-    }
-    if let Some(f) = deferred {
-        return Err(f);
-    }
-    Ok(Verdict::Compared)
 }
 
-fn prior_of(case: &Case127, addr: u8) -> u8 {
-    let r = Reg127::new();
-    prime(&r, case);
-    r.get(addr)
+/// One operation on a fresh driver instance with primed prior register contents.
+pub fn check127(case: &Case127) -> Result<Verdict, Failure> {
+    let cj = case.to_json();
+    let mut s = Sess127::new(case.chip, case.tx_boost, case.rx_boost);
+    s.prime(case);
+    s.step(case, &cj)
 }
